@@ -3,6 +3,8 @@ import json, sys
 pid = sys.argv[1]
 wt = sys.argv[2]
 variant = sys.argv[3] if len(sys.argv) > 3 else ""
+if variant == "@wave6":
+    variant = "NOTE: " + json.load(open('/verif/tools/wave6_notes.json'))[pid]
 if variant == "@wave5":
     variant = "NOTE: " + json.load(open('/verif/tools/wave5_notes.json'))[pid]
 if variant == "@wave4":
